@@ -76,10 +76,22 @@ PROPS = {
                            '1 piece from a menu of 336 questions/records (6 owners: root, one label, label+pointer to 12, two pointers into the header, '
                            'lone 0xc0; 2 questions; 17 type/class/RDATA shapes of A IN/CH/unknown class, NS, MX, TXT, OPT, unknown type, plain and compressed, '
                            'valid and malformed; RDLENGTH exact/-1/+1; TTL 3600 and 0x80000001) or 2 pieces (any x 18 representatives, both orders), '
-                           'each cut at EVERY length and with one extra octet; every operation at every read position reachable through successful operations (9.3M operation checks)',
+                           'each cut at EVERY length and with one extra octet; every operation at every read position reachable through successful operations (9.3M operation checks); '
+                           'long messages: question + opaque filler record + a record whose owner starts at offset T in {255,256,257,511,512,513,768,1024} + one of 23 records '
+                           '(NS CNAME PTR MX SOA MINFO CH-A SRV opaque; RDATA names = pointer / label+pointer to T, T+1, T+4, in both SOA/MINFO positions) x 3 owners, whole / cut at every '
+                           'length of the last record / with one more record (552 messages)',
                      what='public Reader API (TryFrom, header accessors, read_question, skip_question, read_rr, skip_rr, peek_rr + PeekRr accessors/owner/skip/parse, '
                           'mark/rewind, at_eom, message_to_cursor) vs a reference RFC 1035 4.1 decoder (bounded/src/wire_ref.rs): no panic, position unchanged on Err, '
-                          'fields (owner, type, class, TTL, decompressed RDATA) and end position equal to the reference on Ok, same acceptance, read_rr == peek_rr().parse()')],
+                          'fields (owner, type, class, TTL, decompressed RDATA) and end position equal to the reference on Ok, same acceptance, read_rr == peek_rr().parse(); '
+                          'refusing an IN SRV record with a compressed target tolerated'),
+                # 'including decompressed RDATA': the RDATA reader the Reader delegates to, on its own (same binary as C18)
+                dict(bin='bnd_rdata', when='quick',
+                     bound='read part of bnd_rdata: 91 class/type pairs; 1212 RDATA regions (24 name shapes incl. pointers backwards/into a label/forwards/to itself/cut off) in a message '
+                           'with two earlier names x 3 continuations x 6-10 cursor/RDLENGTH choices; 5 messages x 21 cursors up to usize::MAX x 14 RDLENGTHs; long messages: a name at offset T in '
+                           '{255,256,257,511,512,513,768,1024,15872} and a chained name at T+256, every layout with names x 12 name shapes (pointer / label+pointer to T, T+256, T+8, plain, '
+                           'pointers one octet off, to itself) x 2 continuations x RDLENGTH exact/+1/-1/-2',
+                     what='public Rdata::read vs the reference RDATA reader (bounded/src/wire_ref.rs): no panic, Ok only with RDATA that the RFC layout and Rdata::validate accept, '
+                          'result equal to the reference (octets as they are / embedded names decompressed; refusing a compressed SRV target tolerated)')],
         unverified=['Rdata::read body (assumed contract here; see C18)', 'fmt::Debug impl of Reader (calls the verified accessors)'],
         assumptions=['slice lengths are <= isize::MAX'],
     ),
